@@ -158,7 +158,7 @@ Definition c_conn_closed (s : cstate) (p : peer) (c : conn) : cstate :=
       let ps' := remove_conn c ps in
       match p_conns ps' with
       | [] => set_peers s (al_remove N.eqb p (cs_peers s))
-      | _ => set_peers s (al_modify N.eqb p (fun _ => ps') (cs_peers s))
+      | _ => set_peers s (al_modify N.eqb p (remove_conn c) (cs_peers s))
       end
   end.
 
@@ -220,7 +220,7 @@ Definition c_cancel (s : cstate) (q : qid) : cstate :=
   | Some (c, qs) =>
       match swap_remove_q q qs with
       | [] => set_wl (set_c2q s1 (al_remove cid_eqb c (cs_c2q s1))) (fst (wl_remove (cs_wl s1) c))
-      | qs' => set_c2q s1 (al_modify cid_eqb c (fun _ => qs') (cs_c2q s1))
+      | _ => set_c2q s1 (al_modify cid_eqb c (swap_remove_q q) (cs_c2q s1))
       end
   end.
 
@@ -253,8 +253,8 @@ Definition c_incoming (s : cstate) (p : peer) (pres : list (cid * bool)) (blocks
   | Some ps =>
       let pwl := fold_left apply_presence pres (p_wl ps) in
       let a := fold_left inc_block blocks (MkInc (cs_wl s) pwl (cs_c2q s) (cs_queue s) [] false) in
-      let ps' := MkPeer (p_conns ps) (p_ss ps) (ia_pwl a) (p_send_full ps) in
-      let s1 := MkCs (ia_queue a) (ia_wl a) (al_modify N.eqb p (fun _ => ps') (cs_peers s)) (ia_c2q a)
+      let upd := fun ps0 => MkPeer (p_conns ps0) (p_ss ps0) (ia_pwl a) (p_send_full ps0) in
+      let s1 := MkCs (ia_queue a) (ia_wl a) (al_modify N.eqb p upd (cs_peers s)) (ia_c2q a)
                      (cs_tasks s) (cs_ready s) (cs_next_task s) (cs_abort s) (cs_next_qid s)
                      (cs_deadline s) (cs_new_blocks s) (cs_now s) (cs_next_call s) in
       if ia_panic a then (s1, [OPanic])
@@ -352,31 +352,34 @@ Inductive task_result :=
 | TrSet (ok : bool) (blocks : list (cid * bytes))
 | TrCancelled.
 
-Inductive task_poll := TpReady (r : task_result) | TpPending (t : task) (outs : list cout) (started : bool).
+Inductive task_poll := TpReady (r : task_result) | TpStart (outs : list cout) | TpPending.
 
 Definition poll_task (next_call : N) (t : task) : task_poll :=
   match t_kind t with
   | TGet q c =>
       if t_aborted t then TpReady TrCancelled
       else match t_call t with
-           | None => TpPending (MkTask (t_kind t) (Some next_call) (t_result t) false) [OGet next_call c] true
+           | None => TpStart [OGet next_call c]
            | Some _ =>
                match t_result t with
                | Some r => TpReady (TrGet q c r)
-               | None => TpPending t [] false
+               | None => TpPending
                end
            end
   | TPut bl =>
       match t_call t with
-      | None => TpPending (MkTask (t_kind t) (Some next_call) (t_result t) (t_aborted t)) [OPut next_call bl] true
+      | None => TpStart [OPut next_call bl]
       | Some _ =>
           match t_result t with
           | Some SFail => TpReady (TrSet false bl)
           | Some _ => TpReady (TrSet true bl)
-          | None => TpPending t [] false
+          | None => TpPending
           end
       end
   end.
+
+(* the first poll of a task starts its store call *)
+Definition start_task (call : N) (t : task) : task := MkTask (t_kind t) (Some call) (t_result t) (t_aborted t).
 
 (* dequeue and poll until one task is Ready or the ready-to-run queue is empty *)
 Fixpoint poll_next (rq : list N) (tasks : list (N * task)) (next_call : N)
@@ -389,11 +392,11 @@ Fixpoint poll_next (rq : list N) (tasks : list (N * task)) (next_call : N)
       | Some t =>
           match poll_task next_call t with
           | TpReady r => (al_remove N.eqb tid tasks, rq', next_call, [], Some r)
-          | TpPending t' outs started =>
+          | TpStart outs =>
               let '(tasks', rq'', nc, outs', res) :=
-                poll_next rq' (al_modify N.eqb tid (fun _ => t') tasks)
-                          (if started then next_call + 1 else next_call) in
+                poll_next rq' (al_modify N.eqb tid (start_task next_call) tasks) (next_call + 1) in
               (tasks', rq'', nc, outs ++ outs', res)
+          | TpPending => poll_next rq' tasks next_call
           end
       end
   end.
